@@ -31,6 +31,12 @@ def run(ctx):
     # "isomorphic to each other" is judged by the matcher: it must read specifications the way they are built
     B.b7_equivalence_steps(ctx)
     ctx.floor("B7", 6)
+    B.b10_expansion_until_spec(ctx)
+    B.b11_paths_same_length(ctx)
+    B.b12_path_checked_on_every_visit(ctx)
+    ctx.floor("B10", 1)
+    ctx.floor("B11", 1)
+    ctx.floor("B12", 1)
     ctx.floor("B1", 1)
     ctx.floor("B4", 3)
     ctx.floor("B8", 2)
